@@ -529,21 +529,27 @@ acquire_start(struct AcquireRuntime* self_)
     self->state = DeviceState_Running;
     return AcquireStatus_Ok;
 Error:
+    // Stop whatever was already started. A source thread stops its own camera
+    // and then its filter, which stops its sink; where the source thread was
+    // never created the filter has to be told directly, or it (and the sink)
+    // would run forever and acquire_stop() would never return.
     for (int i = 0; i < countof(self->video); ++i) {
         if (((self->valid_video_streams >> i) & 1) == 0) {
             TRACE("(Abort) Skipping disabled video stream %d", i);
             continue;
         }
-        struct video_s* video = self->video + i;
-        // Stop whatever was already started. A source stops its filter, which
-        // stops its sink; where the source thread was never created the
-        // filter has to be told directly, or it (and the sink) would run
-        // forever and the next acquire_stop() would never return.
-        video->source.is_stopping = 1;
-        video->filter.is_stopping = 1;
-        camera_stop(video->source.camera);
+        self->video[i].filter.is_stopping = 1;
     }
-    acquire_stop(self_); // joins the workers
+    // Signals and unblocks the sources, then joins the workers. The cameras
+    // must not be stopped from here while their source threads may still be
+    // using them: both threads would end up stopping the same camera.
+    acquire_abort(self_);
+    for (int i = 0; i < countof(self->video); ++i) {
+        if (((self->valid_video_streams >> i) & 1) == 0)
+            continue;
+        // a camera that was started but whose source thread never was
+        camera_stop(self->video[i].source.camera);
+    }
     self->state = DeviceState_AwaitingConfiguration;
     return AcquireStatus_Error;
 }
